@@ -133,7 +133,18 @@ def engine_search(prop, timeout=300, only_label=None):
     ws, n, nq = engine.run_cases(lines, prop)
     ENGINE_STATS[prop] = {"cases": n, "statements_and_queries": nq}
     import sqlite3
-    return ws, "%d cases (%d statements / catalogue queries) executed on SQLite %s" % (n, nq, sqlite3.sqlite_version)
+    note = "%d cases (%d statements / catalogue queries) executed on SQLite %s" % (n, nq, sqlite3.sqlite_version)
+    if prop in ("C07", "C09") and only_label is None:
+        # literals of the optional value types (Json, date / time, uuid, network types) are written by feature-gated code the first replay crate
+        # does not compile: the second native crate decodes each backend's literal with that dialect's lexer (C03's search; C07: SQLite's only)
+        from . import kani as _k
+        ns = _k.run_native_search("C03")
+        for w in ns["witnesses"]:
+            if prop == "C09" or str(w.get("observed", "")).startswith("sqlite:"):
+                ws.append(dict(w, property=prop))
+        if ns["note"]:
+            note += " " + ns["note"]
+    return ws, note
 
 
 def write_replay(prop, n, f, witnesses, note, unit_path):
